@@ -103,7 +103,43 @@ class _TryFinally(ast.NodeTransformer):
         return node
 
 
+def _rename_private_functions(root):
+    """benign twin: every private function/method (leading underscore, not dunder,
+    not also used as a plain attribute) gets a new name, at definition and uses"""
+    import re
+    files = []
+    for dp, dn, fn in os.walk(os.path.join(root, 'circus')):
+        for f in fn:
+            if f.endswith('.py'):
+                files.append(os.path.join(dp, f))
+    defs, stored = set(), set()
+    for p in files:
+        t = ast.parse(open(p, encoding='utf8').read())
+        for n in ast.walk(t):
+            if isinstance(n, (ast.FunctionDef, ast.AsyncFunctionDef)) and n.name.startswith('_') \
+                    and not n.name.endswith('__'):
+                defs.add(n.name)
+            elif isinstance(n, ast.Attribute) and isinstance(n.ctx, ast.Store):
+                stored.add(n.attr)
+            elif isinstance(n, ast.Name) and isinstance(n.ctx, ast.Store):
+                stored.add(n.id)
+            elif isinstance(n, ast.arg):
+                stored.add(n.arg)
+            elif isinstance(n, ast.keyword) and n.arg:
+                stored.add(n.arg)
+    names = sorted(defs - stored, key=len, reverse=True)
+    rx = re.compile(r'(?<![\w])(%s)(?![\w])' % '|'.join(re.escape(n) for n in names))
+    for p in files:
+        src = open(p, encoding='utf8').read()
+        out = rx.sub(lambda m: m.group(1) + '_rn', src)
+        compile(out, p, 'exec')
+        with open(p, 'w', encoding='utf8') as fh:
+            fh.write(out)
+
+
 def _global_twin(root, kind):
+    if kind == 'rename-private-functions':
+        return _rename_private_functions(root)
     for dp, dn, fn in os.walk(os.path.join(root, 'circus')):
         for f in fn:
             if f.endswith('.py'):
@@ -203,6 +239,8 @@ def run_for(prop, repo, only=None):
                  'expect': 'silent'})
     muts.append({'name': 'twin-global-try-finally-wrap', 'global': 'try-finally',
                  'expect': 'silent'})
+    muts.append({'name': 'twin-global-rename-private-functions',
+                 'global': 'rename-private-functions', 'expect': 'silent'})
     if only:
         muts = [m for m in muts if m['name'] in only]
     results = []
